@@ -39,6 +39,6 @@ theorem unsafe_outcome_is_final (rc : Nat) (o : Outcome) (h : safeToResend o = f
 /-- non-vacuity: a non-idempotent request, unavailable (safe) then write timeout (final) -/
 example : let r := run (fun _ _ => false) false [0, 1, 2] [.unavailable, .writeTimeout "WriteTypeBatchLog", .success]
     r.attempts = [0, 1] ∧ r.reply = some (.forwarded 1) := by
-  simp [run, go, pick, skipDown, react, Retry.decide, Gen.RetryPolicy.onUnavailable]
+  simp [run, go, pick, pickNext, skipDown, react, Retry.decide, Gen.RetryPolicy.onUnavailable]
 
 end CqlVerif.C04
